@@ -1028,10 +1028,15 @@ class Machine:
             mth = st.pick(METHODS, "method")
             form = st.pick(("array", "list", "tuple"), "grid-form")
             obj = g if form == "array" else (list(g) if form == "list" else tuple(g))
-            d["call"] = lambda wv: wv.interpolate(new_x=obj, method=mth)
+            # "n: ignored if new_x specified": a valid n next to the bad grid must not rescue the request
+            n_too = st.draw(2, 60, "n-as-well") if st.coin(1, 3, "n-given-as-well") else None
+            if n_too is None:
+                d["call"] = lambda wv: wv.interpolate(new_x=obj, method=mth)
+            else:
+                d["call"] = lambda wv: wv.interpolate(n=n_too, new_x=obj, method=mth)
             what = ("first end point moved", "last end point moved", "both end points moved", "descending grid",
                     "interior point appended after the last", "interior point inserted before the first")[which]
-            d["text"] = f"interpolate(new_x ({form}): {what}, {mth!r})"
+            d["text"] = f"interpolate({'n=%d, ' % n_too if n_too else ''}new_x ({form}): {what}, {mth!r})"
         elif c == "interpolate-neither":
             d["call"] = lambda wv: wv.interpolate()
             d["text"] = "interpolate() without n and new_x"
